@@ -165,6 +165,8 @@ def opaque_writers(v, ps, root=None):
                 continue
             if x.get("usr") in v.defs:
                 continue                     # a library function the rule chose not to inline: its own rule decides it
+            if x.get("kind") == "construct" and (p.get("name") or "").startswith("std::"):
+                continue                     # building a standard iterator / functor object from a pointer writes nothing through it
             for a in [a_ for a_ in (p.get("args") or []) if isinstance(a_, tuple)] + ([x["this"]] if isinstance(x.get("this"), tuple) else []):
                 r_ = sym.root_of(a) if a and a[0] in ("idx", "fld", "addr", "cast", "sym", "var", "new", "obj") else None
                 if a and a[0] in ("addr", "idx", "fld", "var", "sym", "new", "obj") and (root is None or r_ == root):
@@ -179,8 +181,15 @@ def value_not_redrawn(ps, arr, is_draw_call):
     """a statement in a loop that stores a random draw into arr[...]: the call that draws must be evaluated inside the same loop
     nest (once per element).  `std::fill_n(p, n, draw())` evaluates its argument once: every element gets the same value.
     -> the first offending store piece, or None"""
+    def holds_draw(p_):
+        val = p_.get("val")
+        return isinstance(val, tuple) and any(st_[0] == "call" and is_draw_call({"name": st_[1]}) for st_ in sym.subterms(val))
     for p in ps:
-        if p["kind"] != "store" or p["lv"][0] != "idx" or p["lv"][1] != arr or not p["loops"]:
+        if p["kind"] != "store" or p["lv"][0] != "idx" or not p["loops"]:
+            continue
+        # the statement that stores the draw -- into arr itself, or into a scratch array private to the call that is copied to arr
+        # afterwards (the draw then happens in the scratch array's fill loop)
+        if not holds_draw(p) or not (arr is None or p["lv"][1] == arr or sym.root_of(p["lv"])[0] in ("var", "new")):
             continue
         lv = [l.get("var") for l in p["loops"]]
         if not any(c["kind"] == "call" and is_draw_call(c) and [l.get("var") for l in c["loops"]][:len(lv)] == lv for c in ps):
